@@ -89,7 +89,7 @@ theorem fr_checkNode (s : St) (n : Nat) : Fr s (checkNode s n).1 := by
   · exact fr_markClean s n
   · refine fr_ite_fst (fr_ite_fst ?_ ?_) ?_
     · exact Fr.trans (fr_foldl _ fr_applyVerdict _ s) (fr_markClean _ _)
-    · exact Fr.trans (fr_foldl _ fr_applyVerdict _ s) (fr_foldl _ (fun s v => fr_applyVerdict s _) _ _)
+    · exact Fr.trans (Fr.trans (fr_foldl _ fr_applyVerdict _ s) (fr_foldl _ (fun s v => fr_applyVerdict s _) _ _)) (fr_markDirty _ _)
     · exact Fr.trans (fr_foldl _ fr_applyVerdict _ s) (fr_markClean _ _)
 
 theorem fr_checkNodes (s : St) (ns : List Nat) : Fr s (checkNodes s ns).1 := by
